@@ -1022,9 +1022,9 @@ def run(ctx):
     plan = ctx.pick(
         [("hq-frames-frag1-2x2", 5, 0, "HhPFDpE"), ("hq-frames-pic-2x1", 4, 1, full), ("ld-fields-frag4-2x2", 4, 0, full),
          ("ld-frames-pic-2x1", 4, 64, full), ("hq-fields-pic-1x1", 4, 66, full), ("hq-fields-frag2-3x2", 4, 3, full)],
-        [("hq-frames-frag1-2x2", 6, 0, full), ("hq-frames-pic-2x1", 6, 1, full), ("ld-fields-frag4-2x2", 6, 0, full),
-         ("ld-frames-pic-2x1", 6, 64, full), ("hq-fields-pic-1x1", 6, 66, full), ("hq-fields-frag2-3x2", 6, 3, full),
-         ("ld-frames-frag3-3x2", 6, 65, full), ("hq-frames-pic-asym-2x1", 5, 2, full)])
+        [("hq-frames-frag1-2x2", 6, 0, full), ("hq-frames-pic-2x1", 6, 1, "HhPFDpE"), ("ld-fields-frag4-2x2", 5, 0, full),
+         ("ld-frames-pic-2x1", 5, 64, full), ("hq-fields-pic-1x1", 5, 66, full), ("hq-fields-frag2-3x2", 5, 3, full),
+         ("ld-frames-frag3-3x2", 5, 65, full), ("hq-frames-pic-asym-2x1", 5, 2, full)])
     for cfgname, maxlen, level, alphabet in plan:
         cfg = CONFIG_BY_NAME[cfgname]
         for units, word in exhaustive_orderings(ctx, cfg, maxlen, level, alphabet):
@@ -1034,7 +1034,7 @@ def run(ctx):
                       bucket="orderings-len%d" % len(word))
     ctx.exhaustive = True
     # ---- (b) mutated conformant streams ------------------------------------------------------------
-    n_random = ctx.pick(1600, 40000)
+    n_random = ctx.pick(1600, 25000)
     maxlen = ctx.pick(10, 12)
     tries = 0
     made = 0
